@@ -198,3 +198,77 @@ func natCachedSectorSubtrees(fr *frame, fn *ssa.Function, args []value) value {
 	h := fr.i.hashBytes("sector-subtrees", []value(sector[:256]), false)
 	return []value{h}
 }
+
+// ---- core rhp/v2 sectorAccumulator ------------------------------------------
+//
+// The real type packs subtree roots into adjacent arrays and reinterprets them
+// through unsafe casts (layout-dependent). Its four methods are replaced by a
+// plain Merkle accumulator with the same results: leaves are hashed with the
+// leaf prefix, equal-height subtrees are merged, the root folds what is left
+// right to left. State is kept per receiver for the current path.
+
+type saNode struct {
+	height int
+	h      array
+}
+
+func (i *interpreter) saInsert(sa *value, h array, height int) {
+	st := i.path.sectorAcc[sa]
+	for len(st) > 0 && st[len(st)-1].height == height {
+		top := st[len(st)-1]
+		st = st[:len(st)-1]
+		bs := append([]value{uint8(1)}, []value(top.h)...)
+		bs = append(bs, []value(h)...)
+		h = i.hashBytes("blake2b", bs, true).(array)
+		height++
+	}
+	i.path.sectorAcc[sa] = append(st, saNode{height, h})
+}
+
+func init() {
+	const recv = "(*go.sia.tech/core/rhp/v2.sectorAccumulator)."
+	natives[recv+"reset"] = func(fr *frame, fn *ssa.Function, args []value) value {
+		if fr.i.path.sectorAcc == nil {
+			fr.i.path.sectorAcc = map[*value][]saNode{}
+		}
+		delete(fr.i.path.sectorAcc, args[0].(*value))
+		return nil
+	}
+	natives[recv+"appendLeaves"] = func(fr *frame, fn *ssa.Function, args []value) value {
+		i := fr.i
+		if i.path.sectorAcc == nil {
+			i.path.sectorAcc = map[*value][]saNode{}
+		}
+		leaves := args[1].([]value)
+		if len(leaves)%64 != 0 {
+			panic(targetPanic{iface{t: types.Typ[types.String], v: "appendLeaves: illegal input size"}})
+		}
+		for k := 0; k < len(leaves); k += 64 {
+			bs := append([]value{uint8(0)}, leaves[k:k+64]...)
+			i.saInsert(args[0].(*value), i.hashBytes("blake2b", bs, true).(array), 0)
+		}
+		return nil
+	}
+	natives[recv+"appendNode"] = func(fr *frame, fn *ssa.Function, args []value) value {
+		i := fr.i
+		if i.path.sectorAcc == nil {
+			i.path.sectorAcc = map[*value][]saNode{}
+		}
+		i.saInsert(args[0].(*value), copyVal(args[1]).(array), 0)
+		return nil
+	}
+	natives[recv+"root"] = func(fr *frame, fn *ssa.Function, args []value) value {
+		i := fr.i
+		st := i.path.sectorAcc[args[0].(*value)]
+		if len(st) == 0 {
+			return zero(fn.Signature.Results().At(0).Type())
+		}
+		root := st[len(st)-1].h
+		for k := len(st) - 2; k >= 0; k-- {
+			bs := append([]value{uint8(1)}, []value(st[k].h)...)
+			bs = append(bs, []value(root)...)
+			root = i.hashBytes("blake2b", bs, true).(array)
+		}
+		return copyVal(root)
+	}
+}
